@@ -356,6 +356,104 @@ def settings_oracle(ctx, o, first_only=False):
             except exc.PasswordTruncateError:
                 raised = True
             chk(name + ":truncate_error", raised == want_raise, {"op": "truncate_error", "hasher": name, "value": repr(te)}, raised, want_raise)
+    # ---- "not set" spellings leave an inherited truncation policy alone (chains), real values override it
+    for name in ("des_crypt", "bcrypt", "crypt16", "lmhash", "django_des_crypt", "ldap_des_crypt", "ldap_bcrypt"):
+        h = registry.get_crypt_handler(name)
+        n = getattr(getattr(h, "wrapped", h), "truncate_size", None)
+        if not n:
+            continue
+        extra = {"rounds": 4} if "bcrypt" in name else {}
+        for parent_te in (True, False):
+            parent = h.using(truncate_error=parent_te, **extra)
+            for v, want in ((None, parent_te), ("none", parent_te), ("", parent_te), ("None", parent_te), (" none ", parent_te), (True, True), ("yes", True), (False, False), ("no", False), ("false", False)):
+                inp = {"op": "truncate-chain", "hasher": name, "parent": parent_te, "value": repr(v)}
+                try:
+                    child = parent.using(truncate_error=v)
+                    try:
+                        child.hash("a" * (n + 1))
+                        raised = False
+                    except exc.PasswordTruncateError:
+                        raised = True
+                    chk(name + ":truncate_error-chain", raised == want, inp, raised, want)
+                except Exception as e:  # noqa: BLE001
+                    chk(name + ":truncate_error-chain", False, inp, errname(e) + ": " + str(e)[:60], want)
+    # ---- the long spellings of the settings (default_ident, default_salt_size, default_rounds) go through the same checks as the short ones
+    for name in sorted(names):
+        h = registry.get_crypt_handler(name)
+        t = getattr(h, "wrapped", h)
+        sk = h.setting_kwds or ()
+        if "ident" in sk and getattr(t, "ident_values", None):
+            for ident in list(t.ident_values) + ["$nosuch$"]:
+                if "2x" in ident:
+                    continue
+                res = []
+                for key in ("ident", "default_ident"):
+                    try:
+                        sub = h.using(**{key: ident}, **cheap(h))
+                    except Exception as e:  # noqa: BLE001
+                        res.append(("refused", errname(e)))
+                        continue
+                    try:
+                        hs = sub.hash("pw")
+                        res.append(("accepted", parsed(sub, hs).ident, bool(h.verify("pw", hs))))
+                    except Exception as e:  # noqa: BLE001
+                        res.append(("accepted", "then " + errname(e) + ": " + str(e)[:60], False))
+                chk(name + ":default_ident-alias", res[0] == res[1] and (res[0][0] == "refused" or res[0][2] is True), {"op": "using-alias", "hasher": name, "ident": ident}, res,
+                    "ident= and default_ident= are accepted or refused alike, and what is produced verifies under the stock hasher")
+        if "salt_size" in sk and h.min_salt_size != h.max_salt_size:
+            for k in (h.min_salt_size, (h.max_salt_size or h.min_salt_size + 40), h.min_salt_size - 1, (h.max_salt_size + 1) if h.max_salt_size else None):
+                if k is None or k < 0:
+                    continue
+                res = []
+                for key in ("salt_size", "default_salt_size"):
+                    try:
+                        sub = h.using(**{key: k}, **cheap(h))
+                        res.append(("ok", len(parsed(sub, sub.hash("pw")).salt)))
+                    except Exception as e:  # noqa: BLE001
+                        res.append(("err", errname(e)))
+                chk(name + ":default_salt_size-alias", res[0] == res[1], {"op": "using-alias", "hasher": name, "salt_size": k}, res, "salt_size= and default_salt_size= behave alike")
+    # ---- needs_update honours the configured window for every ident / variant the hasher can read
+    for name in sorted(names):
+        h = registry.get_crypt_handler(name)
+        t = getattr(h, "wrapped", h)
+        sk = h.setting_kwds or ()
+        if "rounds" not in sk or not hasattr(h, "needs_update"):
+            continue
+        lo = max(h.min_rounds, 1)
+        log2 = h.rounds_cost == "log2"
+        costs = [lo, lo + 1, lo + 2, lo + 5] if log2 else [lo | 1, (lo + 2) | 1, (lo + 10) | 1, (lo + 50) | 1]
+        if name == "sun_md5_crypt":
+            costs = [0, 1, 2, 7]
+        idents = [i for i in (getattr(t, "ident_values", None) or [None]) if i is None or "2x" not in i] if "ident" in sk else [None]
+        if name in ("bcrypt_sha256", "django_bcrypt_sha256"):
+            idents = [None]
+        for ident in idents:
+            mk = {"ident": ident} if ident is not None else {}
+            if name == "scrypt":
+                mk.update(block_size=1, parallelism=1)
+            hashes = {}
+            for c in costs:
+                try:
+                    hashes[c] = h.using(rounds=c, **mk).hash("pw")
+                except Exception:  # noqa: BLE001
+                    pass
+            for wlo, whi in ((costs[1], costs[2]), (costs[0], costs[0]), (costs[3], costs[3]), (costs[0], costs[3])):
+                try:
+                    pol = h.using(min_rounds=wlo, max_rounds=whi, **({"block_size": 1, "parallelism": 1} if name == "scrypt" else {}))
+                except Exception:  # noqa: BLE001
+                    continue
+                for c, hs in hashes.items():
+                    inp = {"op": "needs-update-window", "hasher": name, "ident": ident, "window": [wlo, whi], "hash_rounds": c}
+                    try:
+                        got = pol.needs_update(hs)
+                    except Exception as e:  # noqa: BLE001
+                        got = errname(e)
+                    want = not (wlo <= c and (whi == 0 or c <= whi))     # a maximum of 0 means "no maximum" (Python truthiness, as in Model/Rounds.lean)
+                    if name in ("bsdi_crypt", "ldap_bsdi_crypt") and not c & 1:
+                        want = True
+                    chk(name + ":needs_update-window", got is want, inp, got, want)
+        if fails and first_only:
+            return fails
     # ---- rounds variation on a chained hasher stays inside the CHILD's window
     for name in ("pbkdf2_sha256", "sha256_crypt", "sha1_crypt"):
         h = registry.get_crypt_handler(name)
